@@ -531,6 +531,12 @@ func (dec *Decoder) initFrame() error {
 	dec.brMBX = dec.mbW
 	dec.brMBY = dec.mbH
 
+	// Start the first row from a clean left context. initScanline otherwise
+	// only runs at the end of a row, so a pooled decoder whose previous frame
+	// failed in the middle of a row would start with that frame's left intra
+	// modes.
+	dec.initScanline()
+
 	return nil
 }
 
